@@ -126,4 +126,6 @@ def ob_merge_unit(new_i: int, old_i: int) -> bool:
             got = merge_middlewares(old, new)
         except ValueError:
             return want == 'ValueError'
-        return want != 'ValueError' and [m.tag for m in got] == want and [m.tag for m in old] == ['%s@o%d' % (CLASSES[i].__name__, k) for k, i in enumerate(lo)]
+        return (want != 'ValueError' and [m.tag for m in got] == want and got is not new and got is not old and
+                [m.tag for m in old] == ['%s@o%d' % (CLASSES[i].__name__, k) for k, i in enumerate(lo)] and
+                [m.tag for m in new] == ['%s@n%d' % (CLASSES[i].__name__, k) for k, i in enumerate(ln)])
